@@ -201,6 +201,13 @@ def check_row_sums(res, rng, T, names):
     return mats
 
 
+def _same_mats(a, b):
+    try:
+        return set(a) == set(b) and all(set(a[t]) == set(b[t]) and all(abs(a[t][k] - b[t][k]) <= 1e-12 for k in b[t]) for t in b)
+    except Exception:
+        return False
+
+
 def check_network(res, rng, names_pool):
     import gcmpy
     from gcmpy import ToolsNames as TN
@@ -227,12 +234,45 @@ def check_network(res, rng, names_pool):
     ex = sut("JointExcessJointDegree", gcmpy.JointExcessJointDegree, {TN.NETWORK: G, TN.EDGE_NAMES: list(names)})
     mats = sut("get_ejks", ex.get_ejks)
     rows = sut("get_excess_joint_distributions(network matrices)", gcmpy.JointExcessFromEjk.get_excess_joint_distributions, mats)
+    import copy as _copy
+    first_entries = _copy.deepcopy(sut("ejks", lambda: mats.ejks))
     qs = sut("get_joint_excess_distributions(network jdd)", gcmpy.JointExcessfromJDD.get_joint_excess_distributions, P)
     for i, nme in enumerate(names):
         bad = same_dist(rows.get(nme, {}), qs[i])
         if bad is not None:
             res.violate("network-row-sums-differ-from-excess-of-empirical-jdd", topology=nme, key=bad, row=rows.get(nme, {}).get(bad), q=qs[i].get(bad),
                         names=names, shapes=shapes, classes=classes); return names
+    if rng.random() < 0.5 and G.number_of_edges() >= 4:
+        # history: the caller keeps the matrices it got, the network is edited in place (degree-preserving swaps inside one topology:
+        # every joint degree stays, the mixing changes), the extractor is asked again - the matrices obtained FIRST still describe the
+        # network they were taken from (their row sums are still that network's excess distributions)
+        swapped = 0
+        for _ in range(60):
+            es = list(G.edges())
+            (a, b), (c, d) = rng.sample(es, 2)
+            if len({a, b, c, d}) < 4 or G.has_edge(a, d) or G.has_edge(c, b):
+                continue
+            d1, d2 = dict(G.edges[a, b]), dict(G.edges[c, d])
+            if d1[NN.TOPOLOGY] != d2[NN.TOPOLOGY]:
+                continue
+            G.remove_edge(a, b); G.remove_edge(c, d)
+            G.add_edge(a, d); G.edges[a, d].update(d1)
+            G.add_edge(c, b); G.edges[c, b].update(d2)
+            swapped += 1
+            if swapped >= 6:
+                break
+        if swapped:
+            sut("get_ejks (again, after the network was edited in place)", ex.get_ejks)
+            res.count("first_matrices_rechecked_after_a_second_extraction")
+            rows1 = sut("get_excess_joint_distributions(the matrices obtained first)", gcmpy.JointExcessFromEjk.get_excess_joint_distributions, mats)
+            for i, nme in enumerate(names):
+                bad = same_dist(rows1.get(nme, {}), rows.get(nme, {}))
+                if bad is not None:
+                    res.violate("matrices-obtained-earlier-changed-when-the-extractor-was-asked-again", topology=nme, key=bad, before=rows.get(nme, {}).get(bad),
+                                now=rows1.get(nme, {}).get(bad), names=names); return names
+            # (row sums are invariant under these swaps; the matrices themselves are compared entry by entry)
+            if not _same_mats(sut("ejks of the first result", lambda: mats.ejks), first_entries):
+                res.violate("matrices-obtained-earlier-changed-when-the-extractor-was-asked-again", names=names, entry_level=True); return names
     return names
 
 
